@@ -156,9 +156,20 @@ struct HMt : Harness {
     }
     int cols = (int)wr.range(1, 10);
     if (kern == K_MTVM) { /* sliced dimension is the column count */ int t = rows; rows = (int)wr.range(1, 10); cols = t; }
+    // now and then a LARGE operand: size thresholds inside the library (a sequential shortcut for small inputs, a blocked path for big
+    // ones) must not hide a path from the checks
+    bool large = p.get("mode") == "value" && wr.chance(0.06);
+    if (large) {
+      threads = (int)wr.range(2, 8);
+      if (kern == K_MTMV) { rows = (int)wr.range(64, 600); cols = (int)wr.range(8, 40); }
+      else if (kern == K_MTVM) { rows = (int)wr.range(8, 600); cols = (int)wr.range(8, 120); }
+      else if (kern <= K_COND_C) { rows = (int)wr.range(60, 140); cols = (int)wr.range(8, 24); }
+      else { rows = (int)wr.range(60, 140); }
+      p.seti("large", 1);
+    }
     p.seti("kern", kern); p.seti("rows", rows); p.seti("cols", cols); p.seti("threads", threads);
     int other = 1;
-    if (kern >= K_DIST_E && kern <= K_DIST_C) other = (int)wr.range(1, 8);          // rows of m2
+    if (kern >= K_DIST_E && kern <= K_DIST_C) other = (int)wr.range(1, large ? 40 : 8);          // rows of m2
     if (kern == K_KMEANS || kern == K_KMPP) other = (int)wr.range(1, 6);             // clusters
     if (kern == K_MDC || kern == K_MAXDIS || kern == K_MAXDISF) other = (int)wr.range(1, rows > 1 ? rows : 1);  // selection size
     if (p.get("mode") == "grid" && (kern == K_MDC || kern == K_MAXDIS || kern == K_MAXDISF) && other > 4) other = 1 + other % 4;  // the slicing logic under test does not depend on the selection size
@@ -206,6 +217,7 @@ struct HMt : Harness {
     if (sr.max_live >= 2) o.nontrivial = true;
     o.counters["grid.points"] += p.get("mode") == "grid";
     o.counters[std::string("kernel.") + kern_name[c.kern]]++;
+    if (p.geti("large", 0)) o.counters["probe.large_operand"]++;
     if (c.threads > c.rows) o.counters["probe.threads_gt_rows"]++;
     if (c.rows % c.threads) o.counters["probe.threads_not_dividing"]++;
     if (c.rows == 0) o.counters["probe.zero_rows"]++;
